@@ -17,12 +17,13 @@ type richGen struct {
 }
 
 func (g *richGen) line(d int, s string) {
+	s = hyphenFix.Replace(s)
 	g.b.WriteString(strings.Repeat("  ", d))
 	g.b.WriteString(s)
 	g.b.WriteByte('\n')
 }
 
-var richNames = []string{"a", "b", "c", "d", "e", "A", "B", "user", "db", "api", "q1"}
+var richNames = []string{"a", "b", "c", "d", "e", "A", "B", "user", "db", "api", "q1", "tier-", `"a.b"`, `" sp"`, "x-y", `"Label"`}
 
 func (g *richGen) nm() string { return richNames[g.r.Intn(len(richNames))] }
 
